@@ -317,6 +317,8 @@ def fl_of(q):
                     z3.And(v <= q * (1 - EPS), v >= q * (1 + EPS))))
     # rounding is monotone and fixes representable numbers: anchors -1, 0, 1
     for c in (-1, 0, 1):
+        if lo is not None and hi is not None and (hi < c or lo > c):
+            continue     # the value is known to lie on one side of this anchor: the error bound already says it all
         e.add(z3.Implies(q >= c, v >= c), z3.Implies(q <= c, v <= c))
     e.uf_cache[key] = v
     return v
